@@ -421,7 +421,11 @@ func runC20(env *Env, tier string) {
 			m.closed = true
 		}
 	} else if !m.closed && !m.expectClose && !env.Failed() && p.Connected() && !gapOpen && !m.pending && ch.Chance("busyapp", 1, 4) {
-		c20BusyApplication(env, s, m, feed)
+		if hb <= 10 && ch.Chance("livepeer", 1, 2) {
+			c20BusySessionLivePeer(env, s, m, feed)
+		} else {
+			c20BusyApplication(env, s, m, feed)
+		}
 	}
 	if m.closed {
 		env.Nontrivial = true
@@ -452,10 +456,7 @@ func c20BusyApplication(env *Env, s *Sut, m *kaMonitor, feed func()) {
 	var burst []byte
 	desc := ""
 	for i := 0; i < n; i++ {
-		d := time.Duration(tenths[ch.Choose("busytenths", len(tenths))]) * m.hb / 10
-		if d == 0 {
-			d = time.Millisecond
-		}
+		d := time.Duration(tenths[ch.Choose("busytenths", len(tenths))])*m.hb/10 + time.Duration(211+i*5003)*time.Microsecond
 		plan = append(plan, d)
 		desc += fmt.Sprintf(" %v", d)
 		b, _ := p.Build("D", AppBody(p.NextID()), MsgOpt{})
@@ -488,7 +489,6 @@ func c20BusyApplication(env *Env, s *Sut, m *kaMonitor, feed func()) {
 	s.E.App.SlowSeq = nil
 	s.E.App.mu.Unlock()
 	if done-done0 < n && !p.EP.IsClosed() && s.E.App.LoggedOn() {
-		simsync.SetSelectOrder(nil)
 		env.Violate("C20/busy-application/burst-not-delivered", "only %d of %d in-sequence application messages of the burst reached the application within %v (%d callbacks not started), session still logged on", done-done0, n, time.Duration(n)*2*m.hb+3*m.hb, left)
 		return
 	}
@@ -506,7 +506,6 @@ func c20BusyApplication(env *Env, s *Sut, m *kaMonitor, feed func()) {
 	for k := 0; k < 60 && notified && !p.EP.IsClosed(); k++ {
 		env.Advance(500 * time.Millisecond)
 	}
-	simsync.SetSelectOrder(nil)
 	p.Collect()
 	trs := 0
 	for _, x := range p.Recv {
@@ -523,6 +522,112 @@ func c20BusyApplication(env *Env, s *Sut, m *kaMonitor, feed func()) {
 		env.Stat("probe_dead_peer_disconnect_after_busy_application")
 	}
 	m.closed = true
+}
+
+// c20BusySessionLivePeer: the session goroutine is held up again and again (inbound callbacks of 0.5-1.1 intervals,
+// now and then a slow ToAdmin) while the counterparty is alive and well: it sends a Heartbeat every 0.4-1 intervals and
+// answers every TestRequest at once. Timer events that fired during a hold-up are waiting together with the
+// counterparty's messages when the session comes back; the simulator decides who is served first (select gate).
+// Two things the statement promises hold however busy the session is, and only they are judged here:
+//   - "if nothing arrives for ANOTHER 1.2 intervals the session is disconnected": a dead-peer disconnect comes no
+//     earlier than 1.2 intervals after the TestRequest reached the wire;
+//   - "any inbound message in between cancels the pending disconnect": no dead-peer disconnect while the engine
+//     itself handed a message of the counterparty to the application within the last 1.2 intervals.
+// A disconnect the engine announces with a Logout of its own is not a keep-alive matter and not judged.
+func c20BusySessionLivePeer(env *Env, s *Sut, m *kaMonitor, feed func()) {
+	ch, p := env.Ch, s.P
+	feed()
+	if m.closed || env.Failed() || !s.E.App.LoggedOn() {
+		return
+	}
+	orders := [][]int{{3, 2, 1, 4, 0}, {2, 3, 1, 4, 0}, {4, 3, 2, 1, 0}, {2, 4, 3, 1, 0}}
+	order := orders[ch.Choose("busyorder", len(orders))]
+	var inPlan, outPlan []time.Duration
+	for i, n := 0, 4+ch.Choose("slowin", 10); i < n; i++ {
+		// (odd microseconds on top: a hold-up must not end at the very instant a timer armed on a round multiple of
+		// the interval expires - which of two goroutines woken at one simulated instant runs first is not the simulator's)
+		inPlan = append(inPlan, time.Duration([]int{5, 6, 7, 8, 9, 11}[ch.Choose("slowintenths", 6)])*m.hb/10+time.Duration(137+i*7919)*time.Microsecond)
+	}
+	for i, n := 0, ch.Choose("slowout", 4); i < n; i++ {
+		outPlan = append(outPlan, time.Duration([]int{5, 8, 13, 15}[ch.Choose("slowouttenths", 4)])*m.hb/10+time.Duration(61+i*6007)*time.Microsecond)
+	}
+	period := time.Duration([]int{4, 5, 8, 10}[ch.Choose("beatperiod", 4)]) * m.hb / 10
+	duration := time.Duration(6+ch.Choose("busyintervals", 8)) * m.hb
+	env.Note("busy session, live peer: %d slow inbound callbacks %v, %d slow ToAdmin %v, peer Heartbeat every %v for %v, select order %v", len(inPlan), inPlan, len(outPlan), outPlan, period, duration, order)
+	env.Stat("fault_busy_session_live_peer")
+	s.E.App.mu.Lock()
+	s.E.App.SlowSeq, s.E.App.SlowOut = inPlan, outPlan
+	s.E.App.mu.Unlock()
+	simsync.SetSelectOrder(order)
+	env.OnCleanup(func() { simsync.SetSelectOrder(nil) })
+	defer func() {
+		s.E.App.mu.Lock()
+		s.E.App.SlowSeq, s.E.App.SlowOut = nil, nil
+		s.E.App.mu.Unlock()
+		// the session may be in the middle of a hold-up with a backlog behind it: let it come back and work the
+		// backlog off (no hold-ups any more) before the driver does anything else; the select order stays as it is
+		// for the rest of the run (cleared in cleanup) - a backlog without an order would be Go's to schedule
+		env.Advance(m.hb*16/10 + 50*time.Millisecond)
+		p.Collect()
+		m.closed = true
+	}()
+	recvN := len(p.Recv)
+	start := time.Now()
+	lastBeat := start
+	for time.Since(start) < duration && p.Connected() && !env.Failed() {
+		env.Advance(m.hb / 10)
+		p.Collect()
+		for ; recvN < len(p.Recv); recvN++ {
+			if x := p.Recv[recvN]; x.Type() == "1" && p.Connected() {
+				p.Send("0", []wire.Field{wire.F(112, x.Str(112))}, MsgOpt{})
+				lastBeat = time.Now()
+				env.Stat("probe_testrequest_answered_at_once_by_live_peer")
+			}
+		}
+		if time.Since(lastBeat) >= period && p.Connected() {
+			p.Send("0", nil, MsgOpt{})
+			lastBeat = time.Now()
+		}
+	}
+	p.Collect()
+	if !p.EP.IsClosed() {
+		env.Stat("probe_busy_session_live_peer_survived")
+		return
+	}
+	D := p.EP.ClosedAt
+	var lastTR, lastLogout time.Time
+	for _, x := range p.Recv {
+		if x.Conn != p.Conn {
+			continue
+		}
+		switch x.Type() {
+		case "1":
+			lastTR = x.At
+		case "5":
+			lastLogout = x.At
+		}
+	}
+	if !lastLogout.IsZero() && !lastLogout.Before(start) {
+		env.Stat("probe_busy_session_engine_logged_out")
+		return
+	}
+	wait := time.Duration(1.2 * float64(m.hb))
+	var lastHandled time.Time
+	for _, a := range s.E.App.Snapshot() {
+		if (a.Kind == "FromAdmin" || a.Kind == "FromApp") && !a.At.After(D) {
+			lastHandled = a.At
+		}
+	}
+	env.Note("connection closed by the engine at +%v; last TestRequest at +%v, last inbound callback at +%v", D.Sub(env.T0), lastTR.Sub(env.T0), lastHandled.Sub(env.T0))
+	if !lastTR.IsZero() && D.Sub(lastTR) < wait-m.slack {
+		env.Violate("C20/disconnect-early/busy-session", "the session was disconnected %v after its TestRequest reached the wire (interval %v: another 1.2 intervals = %v are granted); the counterparty sends a Heartbeat every %v and answers every TestRequest at once (select order %v)", D.Sub(lastTR), m.hb, wait, period, order)
+		return
+	}
+	if !lastHandled.IsZero() && D.Sub(lastHandled) < wait-m.slack {
+		env.Violate("C20/live-peer-disconnected/busy-session", "dead-peer disconnect although the engine handed a message of the counterparty to the application only %v earlier (interval %v, 1.2 intervals = %v; select order %v)", D.Sub(lastHandled), m.hb, wait, order)
+		return
+	}
+	env.Stat("probe_busy_session_disconnect_not_judged")
 }
 
 func summarize(r []RecvMsg) string {
